@@ -91,6 +91,19 @@ CAST_UP = re.compile(r"^cast(ps128_ps256|pd128_pd256|si128_si256)$")
 # scalar kind letters of the table: a=i32 b=i64 e=f32 g=f64
 LETTER = {"a": "i32", "b": "i64", "e": "f32", "g": "f64"}
 
+def intrin_ctype(name):
+    """C register type of the result of an intrinsic call (for overload resolution), or None"""
+    m = re.match(r"^_mm(256|512)?_(.*)$", name)
+    if not m: return None
+    width = m.group(1) or "128"; base = m.group(2)
+    mc = re.match(r"^cast(?:ps|pd|si)(\d+)?_(ps|pd|si)(\d+)?$", base)
+    if mc: width = mc.group(3) or width; suf = mc.group(2)
+    elif re.match(r"^extract[fi]128_", base): width = "128"; suf = base.split("_")[-1]
+    else: suf = base.split("_")[-1]
+    t = "" if suf in ("ps", "ss") else "d" if suf in ("pd", "sd") else "i" if re.match(r"^(epi\d+x?|epu\d+|si\d+)$", suf) else None
+    if t is None: return None
+    return "__m%s%s" % (width, t)
+
 class Untranslatable(Exception):
     pass
 
@@ -356,6 +369,11 @@ class Parser:
         return Val(f["ret"], expr, fo=fo, ctype=f.get("retctype")), f
 
     def call(self, name):
+        v = self.call0(name)
+        if v.kind == "R" and v.ctype is None and name.startswith("_mm"): v.ctype = intrin_ctype(name)
+        return v
+
+    def call0(self, name):
         a = self.args()
         fo = any(x.fo for x in a)
         m = re.match(r"^_mm(256|512)?_(.*)$", name)
@@ -367,6 +385,9 @@ class Parser:
         if re.match(r"^loadu?_(ps|pd|si128|si256|si512|epi32|epi64)$", base):
             if len(a) != 1 or a[0].kind not in ("P32", "P64"): raise Untranslatable("load from a non-pointer")
             return Val("R", "(loadw %s %d)" % a[0].text, fo=fo)
+        if base in ("load_ss", "load_sd"):
+            if len(a) != 1 or a[0].kind not in ("P32", "P64"): raise Untranslatable("load from a non-pointer")
+            return Val("R", "(loadw_%s %s %d)" % (base[-2:], a[0].text[0], a[0].text[1]), fo=fo)
         if CAST_ID.match(base):
             if len(a) != 1: raise Untranslatable("cast arity")
             return Val("R", self.coerce(a[0], "R").text, fo=fo)
@@ -394,7 +415,7 @@ MARK = "inline __attribute__((always_inline))"
 def preprocess(isa, repo=None):
     repo = repo or core.REPO
     cmd = ["g++", "-std=c++14", "-E", "-P", "-O2", "-DFASTOR_VERIF", "-x", "c++"] + core.ISA_FLAGS[isa] + ["-I" + repo, "-"]
-    src = '#include "Fastor/simd_vector/SIMDVector.h"\n#include "Fastor/simd_math/simd_math.h"\n#include "Fastor/backend/transpose/transpose_kernels.h"\n#include "Fastor/backend/dyadic.h"\n'
+    src = '#include "Fastor/simd_vector/SIMDVector.h"\n#include "Fastor/simd_math/simd_math.h"\n#include "Fastor/backend/transpose/transpose_kernels.h"\n#include "Fastor/backend/dyadic.h"\n#include "Fastor/backend/norm.h"\n'
     p = subprocess.run(cmd, input=src, stdout=subprocess.PIPE, stderr=subprocess.PIPE, text=True, timeout=600)
     if p.returncode != 0:
         raise RuntimeError("preprocessing failed for %s: %s" % (isa, p.stderr[-800:]))
@@ -787,7 +808,7 @@ def translate(isa, repo=None):
     funcs = {}; used = set(); defs = []; untranslated = []; translated = []; metas = []
     for f in fns:
         nm = f["name"]
-        interesting = (f["cls"] is not None) or nm.startswith("_mm") or nm.startswith("_add") or nm in ("_addsub_ps", "_mulsub_ps", "_hsub_pd", "arrange_from_load", "arrange_for_store") or nm.startswith("_MM_TRANSPOSE") or nm.startswith("_dyadic<") \
+        interesting = (f["cls"] is not None) or nm.startswith("_mm") or nm.startswith("_add") or nm in ("_addsub_ps", "_mulsub_ps", "_hsub_pd", "arrange_from_load", "arrange_for_store") or nm.startswith("_MM_TRANSPOSE") or nm.startswith("_dyadic<") or nm.startswith("_norm<") \
             or "SIMDVector<" in f["params"] or "SIMDVector<" in f["ret"]
         if not interesting: continue
         if "T,ABI" in f["sig"].replace(" ", "") or "template" in f["ret"]: continue
